@@ -54,6 +54,12 @@ fn main() {
             let code = checks::run(&prop, tier, seed);
             std::process::exit(code);
         }
+        "emit" => {
+            // gev emit <group.json>: {"files":[[path,src]...],"scripts":[[path,js]...],"order":[indices]?} -> bundle on stdout
+            let text = std::fs::read_to_string(&args[2]).unwrap_or_else(|_| usage());
+            let v: serde_json::Value = serde_json::from_str(&text).unwrap_or_else(|_| usage());
+            std::process::exit(checks::c20_emit(&v));
+        }
         "isolate-worker" => {
             isolate::worker_main();
         }
